@@ -256,6 +256,16 @@ def Dec.close (a b : Dec) : Bool :=
   let bound := max one x.natAbs
   decide ((x - y).natAbs * 1000000000 ≤ bound.natAbs)
 
+/-- closeness of a float64 sum to the exact sum: the operands are rounded to 53 bits before they are
+    added, so after cancellation the error is relative to the operands, not to the result
+    (`-9223372036854775807 + 9223372036854775808` is `0` in float64 arithmetic, `1` exactly):
+    |got - exact| ≤ 10^-9 · max(1, |exact|, |a|, |b|) -/
+def Dec.closeSum (got exact a b : Dec) : Bool :=
+  let s := max (max got.scale exact.scale) (max a.scale b.scale)
+  let sc := fun (x : Dec) => x.mant * (10 : Int) ^ (s - x.scale)
+  let bound : Nat := max ((10 : Int) ^ s).natAbs (max (sc exact).natAbs (max (sc a).natAbs (sc b).natAbs))
+  decide ((sc got - sc exact).natAbs * 1000000000 ≤ bound)
+
 def implBytes (c : Ctx) : Option Bytes :=
   match c.impl with
   | some (.bulk b) => some b
@@ -272,7 +282,7 @@ def floatSum (c : Ctx) (old : Option Bytes) (delta : Bytes) : Option Bytes :=
     match implBytes c with
     | some t =>
       match parseDecimal t with
-      | some got => if got.close exact then some t else none
+      | some got => if got.closeSum exact o d then some t else none
       | none => none
     | none => none
   | _, _ => none
